@@ -2,7 +2,7 @@
 CONSTANTS
   N = 2
   Ids = {1}
-  NewIds = {2}
+  NewIds = {2, 3}
   Sids = {1}
   MaxTs = 2
   MaxRepl = 2
